@@ -1,6 +1,7 @@
 """C07 -- peer reboot is detected exactly, per sender and per channel."""
 import someip.sd as SD
 from contracts import spec_sd as SS
+from contracts.common import gen_addr
 
 FUNCTIONS = ["someip.sd._SessionStorage.check_received"]
 
@@ -16,11 +17,11 @@ def ob_lemma_last_seen(vc):
     record changed: 'previous message from the same sender on the same channel' is what
     the next call compares with (induction step of the history lemma, over the contract)"""
     a, b = SS.gen_storage(vc, "st")
-    sender = vc.opaque("sender", "addr")
+    sender = gen_addr(vc, "sender")
     multicast = vc.bool("multicast")
     flag = vc.bool("flag")
     sid = vc.int("session_id", 0, 0xFFFF)
-    other_sender = vc.opaque("other_sender", "addr")
+    other_sender = gen_addr(vc, "other_sender")
     other_mc = vc.bool("other_multicast")
     before = a.incoming.get((other_sender, other_mc))
     a.check_received(sender, multicast, flag, sid)
@@ -34,13 +35,13 @@ def ob_lemma_detection_rule(vc):
     """over the contract: first message never detects; otherwise exactly the statement's rule;
     other senders / the other channel neither trigger nor mask"""
     a, b = SS.gen_storage(vc, "st")
-    sender = vc.opaque("sender", "addr")
+    sender = gen_addr(vc, "sender")
     multicast = vc.bool("multicast")
     f1 = vc.bool("flag1")
     s1 = vc.int("sid1", 0, 0xFFFF)
     f2 = vc.bool("flag2")
     s2 = vc.int("sid2", 0, 0xFFFF)
-    o_sender = vc.opaque("o_sender", "addr")
+    o_sender = gen_addr(vc, "o_sender")
     o_mc = vc.bool("o_multicast")
     of = vc.bool("o_flag")
     os_ = vc.int("o_sid", 0, 0xFFFF)
@@ -59,7 +60,7 @@ def ob_lemma_detection_rule(vc):
 
 def ob_lemma_first_message(vc):
     a, b = SS.gen_storage(vc, "st")
-    sender = vc.opaque("sender", "addr")
+    sender = gen_addr(vc, "sender")
     multicast = vc.bool("multicast")
     flag = vc.bool("flag")
     sid = vc.int("session_id", 0, 0xFFFF)
@@ -70,7 +71,7 @@ def ob_lemma_first_message(vc):
 def canary_no_detection(vc):
     """must be refuted: claims that no reboot is ever detected"""
     a, b = SS.gen_storage(vc, "st")
-    sender = vc.opaque("sender", "addr")
+    sender = gen_addr(vc, "sender")
     r = a.check_received(sender, vc.bool("multicast"), vc.bool("flag"), vc.int("session_id", 0, 0xFFFF))
     vc.check(not r, "canary")
 
